@@ -65,6 +65,8 @@ func classifyBuildErr(msg string) string {
 		return "emptyparam"
 	case has(jerr.InfoIsEmpty):
 		return "infoempty"
+	case has(jerr.ApartFromTheOpeningParenthesis):
+		return "descparen"
 	case has("the description cannot be empty"):
 		return "descempty"
 	case has(jerr.BodyIsEmpty):
@@ -117,6 +119,9 @@ func expectedLine(rd rendered, toks []Tok, tok int, where string) int {
 		return -1
 	}
 	l := rd.tokLine[tok-1]
+	if where == "body" && tok-1 < len(rd.bodyLine) && rd.bodyLine[tok-1] > 0 {
+		return rd.bodyLine[tok-1]
+	}
 	if where == "body" || where == "body1" {
 		l++
 		if where == "body1" {
